@@ -183,6 +183,8 @@ pub fn parse_trace(text: &str) -> Vec<Ev> {
 
 pub struct ExecCtx {
     pub sut: PathBuf,
+    /// same sources, plain release settings (no overflow checks / debug assertions); None = not built
+    pub sut_plain: Option<PathBuf>,
     pub scratch: PathBuf,
     pub timeout: Duration,
     pub runs_done: AtomicU64,
@@ -275,6 +277,9 @@ pub fn argv_of(scn: &Scenario, r: &RunSpec, data: &Path, dump: &Path) -> Vec<Str
     if r.verify {
         a.push("--verify".into());
     }
+    for _ in 0..r.verbosity {
+        a.push("-v".into());
+    }
     if let Some(s) = r.start {
         a.push("-s".into());
         a.push(s.to_string());
@@ -325,8 +330,26 @@ pub fn exec_scenario(ctx: &ExecCtx, wd: &Workdir, scn: &Scenario, built: &Built)
         let so = fs::File::create(&out_path).map_err(|e| e.to_string())?;
         let se = fs::File::create(&err_path).map_err(|e| e.to_string())?;
         let t0 = Instant::now();
-        let mut child = Command::new(&ctx.sut)
-            .args(argv_of(scn, r, &data, &dump))
+        let bin = match (&ctx.sut_plain, r.plain_build) {
+            (Some(p), true) => p,
+            _ => &ctx.sut,
+        };
+        let use_tty = r.tty && Path::new("/usr/bin/script").exists();
+        let mut cmd = if use_tty {
+            // run under a pseudo-terminal: `script -qec '<cmd>' /dev/null` (exit status of the command is kept)
+            let mut line = format!("'{}'", bin.display());
+            for a in argv_of(scn, r, &data, &dump) {
+                line.push_str(&format!(" '{}'", a.replace('\'', "")));
+            }
+            let mut c = Command::new("/usr/bin/script");
+            c.arg("-qec").arg(line).arg("/dev/null");
+            c
+        } else {
+            let mut c = Command::new(bin);
+            c.args(argv_of(scn, r, &data, &dump));
+            c
+        };
+        let mut child = cmd
             .env("RAYON_NUM_THREADS", r.threads.to_string())
             .env("RBP_SIM_PLAN", &plan_path)
             .env("RBP_SIM_TRACE", &trace_path)
@@ -388,7 +411,25 @@ pub fn exec_scenario(ctx: &ExecCtx, wd: &Workdir, scn: &Scenario, built: &Built)
         };
         outcomes.push(RunOutcome {
             exit,
-            stdout: fs::read(&out_path).unwrap_or_default(),
+            stdout: {
+                let raw = fs::read(&out_path).unwrap_or_default();
+                if use_tty {
+                    // the terminal line discipline turns every "\n" into "\r\n"
+                    let mut v = Vec::with_capacity(raw.len());
+                    let mut i = 0;
+                    while i < raw.len() {
+                        if raw[i] == b'\r' && i + 1 < raw.len() && raw[i + 1] == b'\n' {
+                            i += 1;
+                            continue;
+                        }
+                        v.push(raw[i]);
+                        i += 1;
+                    }
+                    v
+                } else {
+                    raw
+                }
+            },
             stderr: fs::read(&err_path).unwrap_or_default(),
             dump: read_dir_map(&dump),
             dump_before,
